@@ -6,7 +6,7 @@
    of the events that tools/translate extracts from rich/progress.py (gen/ProgressLock.v). *)
 From RichModel Require Import Prelude Progress SpecProgress.
 From RichGen Require Import ProgressLock.
-From RichProofs Require Import ProgressP ProgressConcP.
+From RichProofs Require Import ProgressP ProgressConcP ProgressConcP2 ProgressSerP.
 From Coq Require Import QArith.
 
 (* (1) completed = last explicitly set value + sum of the advances since, for every task, after
@@ -178,16 +178,150 @@ Theorem C12_clock_read_under_lock :
 Proof. exact clock_read_under_lock. Qed.
 Print Assumptions C12_clock_read_under_lock.
 
-(* Full statement (NOT yet proved; the missing part is the invariant "samples are in clock order in
-   every reachable state" for event lists with clock_inside_b and stamp_b):
-     forall c0 tot start per progs sched, Forall (Forall (fun a => 0 <= a)) progs ->
-       let st := Conc.srun advance_events (Conc.init_state c0 tot start per progs) sched in
-       speed_ok_b (speed (Conc.task_of (fst st))) = true.
-   Proved: the static facts above, and that samples in clock order with non-negative deltas give a
-   non-negative speed.  The gap is covered only by the scheduler runs on the real code (no negative
-   speed in any explored schedule of the repaired tree; 4 % of the schedules of the unrepaired one). *)
-Theorem C12_speed_nonneg_concurrent_partial : forall s : Conc.shared,
-  sortedZ (Conc.samples s) -> Forall (fun x => (0 <= snd x)%Z) (Conc.samples s) ->
-  speed_ok_b (speed (Conc.task_of s)) = true.
-Proof. exact in_order_speed. Qed.
-Print Assumptions C12_speed_nonneg_concurrent_partial.
+(* (9) ... and then, for EVERY event list that reads the clock and stamps its samples inside the
+   critical section (and the regenerated advance() does), under every schedule of any number of threads
+   with non-negative amounts the samples are in clock order at every step; so no speed estimate is
+   negative at any step of any schedule. *)
+Theorem C12_samples_in_clock_order_any_disciplined_code : forall evs,
+  Conc.wf_b evs = true -> Conc.clock_inside_b evs = true -> Conc.stamp_b evs = true ->
+  forall c0 tot start per progs sched,
+  Forall (Forall (fun a => (0 <= a)%Z)) progs ->
+  let s := fst (Conc.srun evs (Conc.init_state c0 tot start per progs) sched) in
+  sortedZ (Conc.samples s) /\ Forall (fun x => (0 <= snd x)%Z) (Conc.samples s).
+Proof. exact samples_in_order. Qed.
+Print Assumptions C12_samples_in_clock_order_any_disciplined_code.
+
+Theorem C12_speed_nonneg_concurrent : forall c0 tot start per progs sched,
+  Forall (Forall (fun a => (0 <= a)%Z)) progs ->
+  speed_ok_b (speed (Conc.task_of (fst (Conc.srun advance_events (Conc.init_state c0 tot start per progs) sched)))) = true.
+Proof. exact speed_nonneg_concurrent. Qed.
+Print Assumptions C12_speed_nonneg_concurrent.
+
+(* (10) at every quiescent point (lock free) of every schedule: a started task with completed >= total
+   reports finished, and its time-remaining estimate is not negative.  The proviso on the initial
+   state excludes a task that starts out started, unfinished and already at its total (only reset()
+   with completed >= total produces that); a fresh task satisfies it. *)
+Theorem C12_finish_reported_concurrent : forall c0 tot start per progs sched,
+  (start = None \/ (c0 < tot)%Z) ->
+  let s := fst (Conc.srun advance_events (Conc.init_state c0 tot start per progs) sched) in
+  Conc.lock s = None ->
+  finish_ok_b (started (Conc.task_of s)) (t_completed (Conc.task_of s)) (t_total (Conc.task_of s))
+              (finished (Conc.task_of s)) = true.
+Proof. exact finish_reported_concurrent. Qed.
+Print Assumptions C12_finish_reported_concurrent.
+
+Theorem C12_time_remaining_nonneg_concurrent : forall c0 tot start per progs sched,
+  Forall (Forall (fun a => (0 <= a)%Z)) progs -> (start = None \/ (c0 < tot)%Z) ->
+  let s := fst (Conc.srun advance_events (Conc.init_state c0 tot start per progs) sched) in
+  Conc.lock s = None -> tr_ok_b (time_remaining (Conc.task_of s)) = true.
+Proof. exact time_remaining_nonneg_concurrent. Qed.
+Print Assumptions C12_time_remaining_nonneg_concurrent.
+
+Example C12_concurrent_nonvacuous :
+  let s := fst (Conc.srun advance_events (Conc.init_state 0 6 (Some 0%Z) 30 [[1; 2]; [3]]%Z)
+                  (concat (repeat [0; 1]%nat 200))) in
+  Conc.lock s = None /\ Conc.completed s = 6%Z /\ finished (Conc.task_of s) = true /\
+  List.length (Conc.samples s) = 3%nat.
+Proof. vm_compute. repeat split; reflexivity. Qed.
+
+(* (11) once recorded, the finish time is the same after any further steps of any threads (any
+   event list, no hypothesis) *)
+Theorem C12_finish_latched_concurrent : forall evs sched st f,
+  Conc.fin_time (fst st) = Some f -> Conc.fin_time (fst (Conc.srun evs st sched)) = Some f.
+Proof. exact finish_latched_concurrent. Qed.
+Print Assumptions C12_finish_latched_concurrent.
+
+(* (12) ANY operations from ANY number of threads.  Each operation is one critical section (checked on
+   the regenerated event lists: C12_mutators_single_cs) whose body is an ARBITRARY sequence of
+   micro-steps -- the theorem is closed over every decomposition (Lo, Ms, mexec, body, lo0) of the
+   sequential operation, down to single bytecodes.  At every quiescent point of every schedule the
+   Progress object is the sequential model's result for the operations in lock-acquisition order with
+   a strictly increasing clock; hence theorems (1)-(5) hold there. *)
+Theorem C12_concurrent_is_sequential :
+  forall (Lo Ms : Type) (mexec : Ms -> psh * Lo -> psh * Lo) (body : op -> list Ms) (lo0 : op -> Lo),
+  (forall o x, Ser.run_op mexec body lo0 o x = seq_op o x) ->
+  forall per progs sched,
+  let s := Ser.run mexec body lo0 (@Ser.init psh Lo op Ms (empty_progress per, 0%Z) progs) sched in
+  Ser.lock s = None ->
+  exists os, (forall P : op -> Prop, Forall (Forall P) progs -> Forall P os) /\
+             fst (Ser.sh s) = run (empty_progress per) (tick_hist 0 os) /\
+             mono_hist 0 (tick_hist 0 os).
+Proof. exact concurrent_is_sequential. Qed.
+Print Assumptions C12_concurrent_is_sequential.
+
+Theorem C12_concurrent_completed_accounting :
+  forall (Lo Ms : Type) (mexec : Ms -> psh * Lo -> psh * Lo) (body : op -> list Ms) (lo0 : op -> Lo),
+  (forall o x, Ser.run_op mexec body lo0 o x = seq_op o x) ->
+  forall per progs sched,
+  let s := Ser.run mexec body lo0 (@Ser.init psh Lo op Ms (empty_progress per, 0%Z) progs) sched in
+  Ser.lock s = None ->
+  exists os, (forall P : op -> Prop, Forall (Forall P) progs -> Forall P os) /\
+  Forall2 (fun t r => t_id t = r_id r /\ completed_ok_b (r_base r) (r_advs r) (t_completed t) = true)
+          (p_tasks (fst (Ser.sh s))) (c_refs (fold_left ref_step os (mkC [] 0%Z true))).
+Proof. exact concurrent_completed_accounting. Qed.
+Print Assumptions C12_concurrent_completed_accounting.
+
+Theorem C12_concurrent_speed_nonneg :
+  forall (Lo Ms : Type) (mexec : Ms -> psh * Lo -> psh * Lo) (body : op -> list Ms) (lo0 : op -> Lo),
+  (forall o x, Ser.run_op mexec body lo0 o x = seq_op o x) ->
+  forall per progs sched,
+  Forall (Forall (fun o => nonneg_op o = true)) progs ->
+  let s := Ser.run mexec body lo0 (@Ser.init psh Lo op Ms (empty_progress per, 0%Z) progs) sched in
+  Ser.lock s = None ->
+  Forall (fun t => speed_ok_b (speed t) = true) (p_tasks (fst (Ser.sh s))).
+Proof. exact concurrent_speed_nonneg. Qed.
+Print Assumptions C12_concurrent_speed_nonneg.
+
+Theorem C12_concurrent_finish_latched :
+  forall (Lo Ms : Type) (mexec : Ms -> psh * Lo -> psh * Lo) (body : op -> list Ms) (lo0 : op -> Lo),
+  (forall o x, Ser.run_op mexec body lo0 o x = seq_op o x) ->
+  forall per progs sched1 sched2 id t f,
+  Forall (Forall (fun o => resets o id = false /\ not_removing o id)) progs ->
+  let s1 := Ser.run mexec body lo0 (@Ser.init psh Lo op Ms (empty_progress per, 0%Z) progs) sched1 in
+  let s2 := Ser.run mexec body lo0 s1 sched2 in
+  Ser.lock s1 = None -> Ser.lock s2 = None ->
+  find_task id (p_tasks (fst (Ser.sh s1))) = Some t -> t_fin t = Some f ->
+  exists t', find_task id (p_tasks (fst (Ser.sh s2))) = Some t' /\ t_fin t' = Some f.
+Proof. exact concurrent_finish_latched. Qed.
+Print Assumptions C12_concurrent_finish_latched.
+
+(* right after the critical section of an advance / update of task id (the last lock acquisition), at a
+   quiescent point of any interleaving of any operations: finished is reported and the time-remaining
+   estimate of a started task is not negative *)
+Theorem C12_concurrent_after_advance :
+  forall (Lo Ms : Type) (mexec : Ms -> psh * Lo -> psh * Lo) (body : op -> list Ms) (lo0 : op -> Lo),
+  (forall o x, Ser.run_op mexec body lo0 o x = seq_op o x) ->
+  forall per progs sched os' o id t',
+  Forall (Forall (fun o => nonneg_op o = true)) progs ->
+  let s := Ser.run mexec body lo0 (@Ser.init psh Lo op Ms (empty_progress per, 0%Z) progs) sched in
+  Ser.lock s = None -> map snd (Ser.hist s) = os' ++ [o] -> advances o id = true ->
+  find_task id (p_tasks (fst (Ser.sh s))) = Some t' ->
+  finish_ok_b (started t') (t_completed t') (t_total t') (finished t') = true /\
+  (started t' = true -> tr_ok_b (time_remaining t') = true).
+Proof. exact concurrent_after_advance. Qed.
+Print Assumptions C12_concurrent_after_advance.
+
+Theorem C12_mutators_single_cs :
+  forallb SerFacts.single_cs_b [advance_events; update_events; reset_events; start_task_events; stop_task_events] = true
+  /\ forallb (fun l => Nat.eqb (SerFacts.count_acq l) 1 && Conc.guarded l) [remove_task_events; add_task_events] = true.
+Proof. exact mutators_single_cs. Qed.
+Print Assumptions C12_mutators_single_cs.
+
+Example C12_ser_nonvacuous :
+  let mexec := fun (o : op) (x : psh * unit) => (seq_op o (fst x), tt) in
+  let s := Ser.run mexec (fun o => [o]) (fun _ => tt)
+             (@Ser.init psh unit op op (empty_progress 30, 0%Z) [[AddTask true 10 0 true; Advance 0 3]; [Advance 0 4]])
+             [0; 0; 0; 1; 1; 1; 0; 0; 0]%nat in
+  Ser.lock s = None /\ map t_completed (p_tasks (fst (Ser.sh s))) = [0 + 4 + 3]%Q.
+Proof. exact ser_nonvacuous. Qed.
+
+(* (13) outside the property text, pinned down: a consumer that abandons the loop while holding the k-th
+   element leaves completed = k - 1 (the count is of elements whose loop body finished) *)
+Theorem C12_track_abandoned : forall p0 total (xs : list Z) k clk,
+  find_task (p_next p0) (p_tasks p0) = None -> (1 <= k <= List.length xs)%nat ->
+  let evs := track_direct_abandoned None (p_next p0) total xs k in
+  yields evs = firstn k xs /\
+  exists t, find_task (p_next p0) (p_tasks (run p0 (with_clock (calls evs) clk))) = Some t /\
+            t_completed t == qZ (Z.of_nat k - 1).
+Proof. exact track_direct_abandoned_count. Qed.
+Print Assumptions C12_track_abandoned.
